@@ -65,7 +65,7 @@ class Hook:
             base = self.view(rd, node['obj'], st, ctx)
             if base is None:
                 return None
-            path, rows, cols = base
+            path, rows, cols = base[:3]
             name = node.get('m')
             args = []
             for a in node.get('args', []):
@@ -75,6 +75,10 @@ class Hook:
                 args.append(int(v[0][0]))
             if name in ('array', 'matrix', 'noalias', 'derived'):
                 return base
+            if len(base) == 4:
+                return None                      # no further sub-views of a diagonal
+            if name == 'diagonal' and not args and len(rows) == len(cols):
+                return (path, rows, cols, 'diag')
             if name == 'col' and len(args) == 1:
                 return (path, rows, [cols[args[0]]])
             if name == 'row' and len(args) == 1:
@@ -111,7 +115,7 @@ class Hook:
                     if len(v) != 1 or not isinstance(v[0][0], sp.Integer):
                         return NotImplemented
                     idx.append(int(v[0][0]))
-                if base is not None and idx and not isinstance(val, sp.MatrixBase):
+                if base is not None and len(base) == 3 and idx and not isinstance(val, sp.MatrixBase):
                     path, rows, cols = base
                     i, j = (idx[0], idx[1]) if len(idx) == 2 else (idx[0], 0)
                     X = sp.Matrix(st.fields[path])
@@ -122,6 +126,17 @@ class Hook:
                     return [(val, st)]
             # view store  X.col(i).head(n).array() op= V
             vw = self.view(rd, l, st, ctx)
+            if vw is not None and len(vw) == 4 and isinstance(val, (sp.MatrixBase, sp.Basic)):
+                path, rows, cols = vw[:3]
+                X = sp.Matrix(st.fields[path])
+                V = list(val) if isinstance(val, sp.MatrixBase) else [val] * len(rows)
+                if len(V) != len(rows):
+                    raise sym.Unsupported('shape mismatch in a diagonal store at %s' % l.get('loc'))
+                for a, (r_, c_) in enumerate(zip(rows, cols)):
+                    old = X[r_, c_]
+                    X[r_, c_] = {'=': V[a], '*=': old * V[a], '/=': old / V[a], '+=': old + V[a], '-=': old - V[a]}[e['op']]
+                st.fields[path] = sp.ImmutableMatrix(X)
+                return [(val, st)]
             if vw is not None and isinstance(val, (sp.MatrixBase, sp.Basic)):
                 path, rows, cols = vw
                 X = sp.Matrix(st.fields[path])
@@ -151,6 +166,16 @@ class Hook:
             tail = fq.split('::')[-1]
             if tail in ('quiet_NaN', 'signaling_NaN') and 'numeric_limits' in fq:
                 return [(sp.nan, st)]
+            if tail == 'epsilon' and 'numeric_limits<' in fq:
+                return [(sp.Rational(1, 2 ** 23) if 'numeric_limits<float>' in fq else sp.Rational(1, 2 ** 52), st)]
+            if tail.split('<')[0] in ('max', 'min') and fq.startswith('std::') and 'numeric_limits' not in fq and len(e.get('args', [])) == 2:
+                out = []
+                for (vals, s2) in rd.evs(e['args'], st, ctx):
+                    if all(isinstance(v, sp.Basic) and v.is_number for v in vals):
+                        out.append(((sp.Max if tail.split('<')[0] == 'max' else sp.Min)(*vals), s2))
+                    else:
+                        return NotImplemented
+                return out
             if tail in ('Identity', 'Zero', 'Ones', 'Constant') and 'Eigen::' in fq:
                 out = []
                 for (vals, s2) in rd.evs(e.get('args', []), st, ctx):
@@ -175,7 +200,7 @@ class Hook:
             name = e.get('m')
             if name in ('setConstant', 'setZero', 'setOnes', 'fill') and len(e.get('args', [])) <= 1:
                 vw = self.view(rd, e['obj'], st, ctx)
-                if vw is not None:
+                if vw is not None and len(vw) == 3:
                     out = []
                     for (av, s2) in rd.evs(e.get('args', []), st, ctx):
                         val = av[0] if av else (sp.Integer(0) if name == 'setZero' else sp.Integer(1))
